@@ -369,6 +369,17 @@ def customBad (c : CustomOpts) (ps : List Policy) (p : Policy) : Bool :=
 def customDenies (c : CustomOpts) (ps : List Policy) (req : Request) : Bool :=
   (enforced .custom ps).any fun p => customBad c ps p && policyMatches p req
 
+/-- The extension providers whose authorizer the request has to be sent to (sorted): the CUSTOM
+    policies are not in the fail-closed mode, the provider is defined in the mesh config and usable on
+    this kind of chain (an HTTP-type provider cannot serve a raw TCP chain), and an enforced CUSTOM
+    policy naming it matches the request. -/
+def customAsks (c : CustomOpts) (tcpShape : Bool) (ps : List Policy) (req : Request) : List Str :=
+  let cps := ps.filter (·.action == .custom)
+  if cps.any (fun a => cps.any fun b => a.provider != b.provider) && !c.multi then []
+  else (sortDedup (cps.map (·.provider))).filter fun pr =>
+    c.providers.contains pr && !(tcpShape && c.httpProviders.contains pr) &&
+    (enforced .custom ps).any fun p => p.provider == pr && policyMatches p req
+
 /-- Decision with the CUSTOM part. -/
 def specDecisionAll (w : Workload) (bundle : List Str) (c : CustomOpts) (ps : List Policy) (req : Request) : Bool :=
   !(customDenies c ((ps.filter (applies w)).map (expandPolicy bundle)) req) &&
@@ -378,6 +389,12 @@ def specDecisionAll (w : Workload) (bundle : List Str) (c : CustomOpts) (ps : Li
 def specDecisionOn (w : Workload) (bundle : List Str) (c : CustomOpts) (tcp : Bool) (ps : List Policy)
     (req : Request) : Bool :=
   specDecisionAll w bundle c (ps.map (clause2 tcp)) req
+
+/-- **The statement, CUSTOM half**: whom to ask, on a chain generated for `tcp` rules and shaped as
+    network (`tcpShape`) or HTTP filters. -/
+def specAsksOn (w : Workload) (bundle : List Str) (c : CustomOpts) (tcp tcpShape : Bool) (ps : List Policy)
+    (req : Request) : List Str :=
+  customAsks c tcpShape (((ps.map (clause2 tcp)).filter (applies w)).map (expandPolicy bundle)) req
 
 /-- The decision the policy semantics define for a request to workload `w` in a mesh with the
     trust domain bundle `bundle`. -/
